@@ -300,12 +300,16 @@ theorem arrayLoop_good (c : Cfg e) {p : PM Gen} (hp' : GoodP F c p) : ∀ (n : N
     exact Good.pure (fun hpb => ⟨Nat.le_refl _, hp hpb⟩) (c.L_refl _) trivial
   | n + 1, s, hp => by
     rw [arrayLoop]
+    simp only [getTokenpos_bind]
     refine Good.bind' (c.L_refl _) (hp' s hp) ?_
     intro v s1 hpos hl _
-    refine Good.bind' hl (arrayLoop_good c hp' n s1 (fun hpb => (hpos hpb).2)) ?_
-    intro vs s2 hpos2 hl2 _
-    refine Good.pure ?_ hl2 trivial
-    pb_omega
+    simp only [getTokenpos_bind]
+    split
+    · exact Good.pure hpos hl trivial
+    · refine Good.bind' hl (arrayLoop_good c hp' n s1 (fun hpb => (hpos hpb).2)) ?_
+      intro vs s2 hpos2 hl2 _
+      refine Good.pure ?_ hl2 trivial
+      pb_omega
 
 theorem seqLoop_good (c : Cfg e) {p : PM Gen} (hp' : GoodP F c p) (lo : Nat) (lg : List Diag) :
     ∀ (fuel : Nat) (acc : List Gen) (s : PState),
@@ -546,14 +550,20 @@ theorem fromSpec_good (c : Cfg e) (f32 : List Char → Option (List Char)) (ctx 
   refine Good.bind_attempt (c.L_refl _) (itemP_good c f32 sp ctx s hp) ?_ ?_
   · intro g s1 hpos hl1 _
     dsimp only
+    simp only [getEnv_bind]
+    refine Good.bind' hl1 (skipComments_good c ctx s1.pos s1.log _ s1 (fun hpb => ⟨Nat.le_refl _, (hpos hpb).2⟩)
+      (fun _ => by omega) (c.L_refl _)) ?_
+    intro _ s2 hpos2 hl2 _
+    have hp2 : c.PB → s.pos ≤ s2.pos ∧ s2.pos ≤ e.toks.size := by
+      intro hpb; have := hpos hpb; have := hpos2 hpb; omega
     simp only [peekToken_bind]
-    cases e.toks[s1.pos]? with
-    | none => exact hreset s1 hl1
+    cases e.toks[s2.pos]? with
+    | none => exact hreset s2 hl2
     | some t =>
       dsimp only
       split
-      · exact Good.pure hpos hl1 trivial
-      · exact hreset s1 hl1
+      · exact Good.pure hp2 hl2 trivial
+      · exact hreset s2 hl2
   · intro d s1 _ hl1
     exact hreset s1 hl1
 
@@ -858,7 +868,10 @@ theorem l_step (c : Cfg e) {fuel : Nat} (ih : AllU F c fuel) (lo : Nat) (lg : Li
     have hp1 : c.PB → lo ≤ s1.pos ∧ s1.pos ≤ e.toks.size := by
       intro hpb; have := hp hpb; have := hpos1 hpb; omega
     cases bc with
-    | comment tok off => exact Good.pure hp1 hl1 trivial
+    | comment tok off =>
+      have hq1' : s.pos + 1 ≤ s1.pos := hq1
+      refine ih.l lo lg ctx acc s1 hp1 ?_ hl1
+      intro hpb hF; have := hp hpb; have := hp1 hpb; have := hf hpb hF; omega
     | none => exact Good.pure hp1 hl1 trivial
     | block tok isBlock startOff =>
       dsimp only
